@@ -42,3 +42,92 @@ VARIANTS += [
     V('C16', 'twin: vw join list comprehension', CU, "other_parts = '-'.join(x for x in core_parts[1:] if x != '')", "tokens = [x for x in core_parts[1:] if x]\n        other_parts = '-'.join(tokens)", expect='clean'),
     V('C16', 'twin: dispatch with in-set', CU, "elif args.data_source == 'ob-csv' or args.data_source == 'csv-raw':", "elif args.data_source in {'ob-csv', 'csv-raw'}:", expect='clean'),
 ]
+
+# ---------------------------------------------------------------- C14
+HLL = 'outrank/algorithms/sketches/counting_ultiloglog.py'
+_ADD_FIXED = """        if not self.hll_flag:
+            if value in self.warmup_set:
+                return
+            if len(self.warmup_set) < self.warmup_size:
+                self.warmup_set.add(value)
+                return
+            # a new value beyond the warm-up capacity: switch to the registers
+            self.M = np.zeros(self.m)
+            for element in self.warmup_set:
+                self._hasher_update(element)
+            self.warmup_set = {}
+            self.hll_flag = True
+        self._hasher_update(value)
+"""
+_ADD_ORIG = """        if len(self.warmup_set) < self.warmup_size and not self.hll_flag:
+            self.warmup_set.add(value)
+        elif not self.hll_flag:
+            if not self.hll_flag:
+                self.M = np.zeros(self.m)
+                for element in self.warmup_set:
+                    self._hasher_update(element)
+                self.warmup_set = {}
+            self.hll_flag = True
+        else:
+            self._hasher_update(value)
+"""
+_ADD_TWIN = """        if self.hll_flag:
+            self._hasher_update(value)
+            return
+        if value in self.warmup_set:
+            return
+        if len(self.warmup_set) >= self.warmup_size:
+            self.M = np.zeros(self.m)
+            for element in self.warmup_set:
+                self._hasher_update(element)
+            self.hll_flag = True
+            self.warmup_set = {}
+            self._hasher_update(value)
+        else:
+            self.warmup_set.add(value)
+"""
+VARIANTS += [
+    V('C14', 'F10 reintroduced: original add()', HLL, _ADD_FIXED, _ADD_ORIG),
+    V('C14', 'trigger value dropped', HLL, "            self.hll_flag = True\n        self._hasher_update(value)\n", "            self.hll_flag = True\n            return\n        self._hasher_update(value)\n"),
+    V('C14', 'duplicate check removed', HLL, "            if value in self.warmup_set:\n                return\n", ""),
+    V('C14', 'set dropped before transfer', HLL, "            for element in self.warmup_set:\n                self._hasher_update(element)\n            self.warmup_set = {}\n", "            self.warmup_set = {}\n            for element in self.warmup_set:\n                self._hasher_update(element)\n"),
+    V('C14', 'transfer loop removed', HLL, "            for element in self.warmup_set:\n                self._hasher_update(element)\n            self.warmup_set = {}\n", "            self.warmup_set = {}\n"),
+    V('C14', 'capacity off by one (<=)', HLL, "if len(self.warmup_set) < self.warmup_size:", "if len(self.warmup_set) <= self.warmup_size:"),
+    V('C14', 'capacity m/4', HLL, "self.warmup_size = int(self.m / 2)", "self.warmup_size = int(self.m / 4)"),
+    V('C14', 'p = 16', HLL, "self.p = 19", "self.p = 16"),
+    V('C14', 'register overwrite instead of max', HLL, "self.M[j] = max(self.M[j], rho)", "self.M[j] = rho"),
+    V('C14', 'min instead of max', HLL, "self.M[j] = max(self.M[j], rho)", "self.M[j] = min(self.M[j], rho)"),
+    V('C14', 'bucket from high bits mis-sized', HLL, "j = x & (self.m - 1)", "j = x & self.m"),
+    V('C14', 'estimator log2', HLL, "np.log(np.divide(self.m, len(np.where(self.M == 0)[0])))", "np.log2(np.divide(self.m, len(np.where(self.M == 0)[0])))"),
+    V('C14', 'estimator counts non-empty', HLL, "len(np.where(self.M == 0)[0])", "len(np.where(self.M != 0)[0])"),
+    V('C14', 'len ignores flag', HLL, "            return len(self.warmup_set)\n", "            return len(self.warmup_set) + 1\n"),
+    V('C14', 'hasher built once', HLL, "        self.hll_flag = False\n", "        self.hll_flag = False\n        self.hasher = xxhash.xxh32(seed=self.p)\n", expect='clean'),
+    V('C14', 'hasher not reset per value', HLL, "        self.hasher = xxhash.xxh32(seed=self.p)\n        if isinstance(value, str):", "        if isinstance(value, str):"),
+    V('C14', 'twin: add restructured', HLL, _ADD_FIXED, _ADD_TWIN, expect='clean'),
+    V('C14', 'twin: count_nonzero zero registers', HLL, "len(np.where(self.M == 0)[0])", "np.count_nonzero(self.M == 0)", expect='clean'),
+    V('C14', 'twin: 2**18 literal capacity', HLL, "self.warmup_size = int(self.m / 2)", "self.warmup_size = 2**18", expect='clean'),
+]
+
+# ---------------------------------------------------------------- C15
+CMS = 'outrank/algorithms/sketches/counting_cms.py'
+CNT = 'outrank/algorithms/sketches/counting_counters_ordinary.py'
+VARIANTS += [
+    V('C15', 'query uses max', CMS, "return min(self.M[i][cms_hash(x, self.hash_seeds[i], self.width)] for i in range(self.depth))", "return max(self.M[i][cms_hash(x, self.hash_seeds[i], self.width)] for i in range(self.depth))"),
+    V('C15', 'query skips last row', CMS, "for i in range(self.depth))", "for i in range(self.depth - 1))"),
+    V('C15', 'query uses first seed for all rows', CMS, "return min(self.M[i][cms_hash(x, self.hash_seeds[i], self.width)]", "return min(self.M[i][cms_hash(x, self.hash_seeds[0], self.width)]"),
+    V('C15', 'update increments by 1 not delta', CMS, "M[i, location] += delta", "M[i, location] += 1"),
+    V('C15', 'update loop starts at 1', CMS, "for i in prange(depth):", "for i in prange(1, depth):"),
+    V('C15', 'update width-1', CMS, "location = cms_hash(x, hash_seeds[i], width)", "location = cms_hash(x, hash_seeds[i], width - 1)"),
+    V('C15', 'add drops delta', CMS, "CountMinSketch._add(self.M, x, self.depth, self.width, self.hash_seeds, delta)", "CountMinSketch._add(self.M, x, self.depth, self.width, self.hash_seeds)"),
+    V('C15', 'add swaps depth/width', CMS, "CountMinSketch._add(self.M, x, self.depth, self.width, self.hash_seeds, delta)", "CountMinSketch._add(self.M, x, self.width, self.depth, self.hash_seeds, delta)"),
+    V('C15', 'hash without modulo', CMS, "return (x_hash + seed) % width", "return (x_hash + seed) & width"),
+    V('C15', 'conservative update (conditional)', CMS, "            M[i, location] += delta\n", "            if M[i, location] < 10:\n                M[i, location] += delta\n"),
+    V('C15', 'counter guard <=', CNT, "    def add(self, val):\n        if len(self.default_counter) < self.max_bound_thr:", "    def add(self, val):\n        if len(self.default_counter) <= self.max_bound_thr:"),
+    V('C15', 'counter guard removed', CNT, "    def add(self, val):\n        if len(self.default_counter) < self.max_bound_thr:\n            self.default_counter[val] += 1", "    def add(self, val):\n        self.default_counter[val] += 1"),
+    V('C15', 'counter += 2', CNT, "self.default_counter[val] += 1", "self.default_counter[val] += 2"),
+    V('C15', 'counter bound doubled', CNT, "self.max_bound_thr = bound", "self.max_bound_thr = bound * 2"),
+    V('C15', 'twin: query list + np.min', CMS, "return min(self.M[i][cms_hash(x, self.hash_seeds[i], self.width)] for i in range(self.depth))", "return min([self.M[i, cms_hash(x, self.hash_seeds[i], self.width)] for i in range(self.depth)])", expect='clean'),
+    V('C15', 'twin: range instead of prange', CMS, "for i in prange(depth):", "for i in range(depth):", expect='clean'),
+    V('C15', 'twin: inline location', CMS, "            location = cms_hash(x, hash_seeds[i], width)\n            M[i, location] += delta", "            M[i, cms_hash(x, hash_seeds[i], width)] += delta", expect='clean'),
+    V('C15', 'twin: counter guard flipped', CNT, "    def add(self, val):\n        if len(self.default_counter) < self.max_bound_thr:", "    def add(self, val):\n        if self.max_bound_thr > len(self.default_counter):", expect='clean'),
+]
